@@ -192,6 +192,59 @@ def capture_case(ck, rng, stats):
     sb.cleanup()
 
 
+def multi_exec_case(ck, rng, stats):
+    """several exec actions (and a command condition) in one rule, each with its own stdin option: every child gets exactly
+    what ITS action asks for - /dev/null, the message from offset 0, or the decoded body - whatever ran before it"""
+    sb = mdrun.Sandbox()
+    src = sb.maildir('src'); dst = sb.maildir('dst')
+    helper = common.rec_helper()
+    hout = os.path.join(sb.root, 'helper-out'); os.makedirs(hout)
+    body = b'line one\nline two =3D\n'
+    text = b'To: a@b\nSubject: multi\nContent-Transfer-Encoding: quoted-printable\n\n' + body
+    decoded = b'line one\nline two =\n'
+    modes = [rng.choice(['plain', 'stdin', 'stdin body']) for _ in range(rng.choice([2, 3, 4]))]
+    if 'plain' not in modes:
+        modes[rng.randrange(1, len(modes))] = 'plain'
+    opts = {'plain': b'', 'stdin': b'stdin ', 'stdin body': b'stdin body '}
+    acts = []
+    for i, m in enumerate(modes):
+        acts.append(b'exec %s{ "%s" "call%d" }' % (opts[m], helper.encode(), i))
+        if rng.randrange(4) == 0 and i + 1 < len(modes):
+            acts.append(b'move "%s"' % dst.encode())
+    with_cmd = rng.randrange(3) == 0
+    cond = b'command { "%s" "exit=0" "cond" } and all' % helper.encode() if with_cmd else b'all'
+    conf = sb.write_conf(b'maildir "%s" {\n\tmatch %s %s\n}\n' % (src.encode(), cond, b' '.join(acts)))
+    sb.add(src, 'new', text)
+    rc, out, err = sb.run([], conf=conf, env={'VERIF_HELPER_OUT': hout, 'VERIF_HELPER_EXIT': '0'})
+    stats['runs'] += 1; stats['multi'] = stats.get('multi', 0) + 1
+    calls = [c for c in common.helper_calls(hout)]
+    rep = {'config': open(conf, 'rb').read().decode(errors='replace'), 'exit': rc, 'stderr': err[-300:].decode(errors='replace')}
+    bad = None
+    execs = [c for c in calls if c['argv'][1:2] and c['argv'][1].startswith(b'call')]
+    if len(execs) != len(modes) or rc != 0:
+        bad = '%d exec call(s) recorded for %d exec actions (exit %d)' % (len(execs), len(modes), rc)
+    else:
+        stats['nontrivial'] += 1
+        for c in calls:
+            t0 = [t for n, t in c['fds'] if n == '0']
+            extra = [(n, t) for n, t in c['fds'] if int(n) > 2]
+            who = c['argv'][1]
+            m = modes[int(who[4:])] if who.startswith(b'call') else 'plain'
+            if extra and not all('mdsort-' in t for n, t in extra):
+                bad = '%s inherits descriptor(s) %r' % (who.decode(), extra); break
+            if m == 'plain' and (c['stdin'] != b'' or (t0 and t0[0] != '/dev/null')):
+                bad = '%s (no stdin option) has %r on descriptor 0 and read %d bytes instead of /dev/null' % (who.decode(), t0, len(c['stdin'])); break
+            if m == 'stdin' and c['stdin'] != text:
+                bad = '%s (stdin) read %r... instead of the whole message' % (who.decode(), c['stdin'][:60]); break
+            if m == 'stdin body' and c['stdin'] != decoded:
+                bad = '%s (stdin body) read %r... instead of the decoded body' % (who.decode(), c['stdin'][:60]); break
+    if bad:
+        stats['viol'] += 1
+        if stats['viol'] <= 4:
+            ck.violation('several exec actions in one rule (%s): %s' % (', '.join(modes), bad), rep)
+    sb.cleanup()
+
+
 def command_case(ck, rng, stats):
     sb = mdrun.Sandbox()
     src = sb.maildir('src'); dst = sb.maildir('dst')
@@ -279,6 +332,8 @@ def run(ck):
             capture_case(ck, ck.rng, stats)
         if i % 4 == 0:
             attachment_case(ck, ck.rng, stats)
+        if i % 3 == 1:
+            multi_exec_case(ck, ck.rng, stats)
         if len(ck.violations) > 6:
             break
     ck.coverage.update({
@@ -286,6 +341,7 @@ def run(ck):
         'distinct_nontrivial': stats['nontrivial'],
         'rule': 'exec actions with 1-7 arguments from a 16-element family (spaces, quotes, glob and shell metacharacters, 8-bit), options none / stdin / stdin body, '
                 'placed after nothing / label / add-header / flag / move and before nothing / move / label, helper exit 0 / 3 / 127 / SIGKILL, in maildir and stdin '
+                '(a third of the moves / flags before the exec across file systems); rules with 2-4 exec actions of mixed stdin options (and a command condition): every child gets what its own action asks for; '
                 'mode, over plain, base64, quoted-printable and multipart/alternative bodies; command conditions with exit 0/1/7/127/SIGTERM; attachment blocks over '
                 'generated MIME trees. non-trivial = the command ran exactly once (or the parts were compared); counted per run',
         'samples': samples,
